@@ -385,7 +385,7 @@ func init() {
 		ID:    "C20",
 		Level: "exploration",
 		Rule: "lookup: PRNG addresses by class (v4/v6 loopback, link-local, multicast, broadcast, unspecified, RFC1918/CGNAT/ULA, global, 16-byte mapped forms, zoned, malformed, nil) x database behaviour (hit, miss, error, error with partial answer, disabled) x entry point (FromIP, TCPAddr, UDPAddr, string address), judged by an independent class oracle incl. the database call log; " +
-			"exposure: every collector path driven with distinctive client endpoints (fake conns, and real sockets from lab source addresses incl. probes that end in RST/timeouts), gathered families scanned for any textual/numeric rendering of client IP or port; class = (phase, address class, db behaviour, entry point)",
+			"exposure: every collector path driven with distinctive client endpoints (fake conns, and real sockets from lab source addresses incl. probes that end in RST/timeouts), gathered families scanned for any textual/numeric rendering of client IP or port, and every location label of every family (tunnel time included) checked against the labels the clients' classes allow (lookup disabled: only the empty label); class = (phase, address class, db behaviour, entry point)",
 		Assumptions: []string{
 			"non-global = unspecified, loopback, link-local, multicast, IPv4 broadcast and their mapped forms; RFC1918/ULA/CGNAT go to the database (DESIGN.md, C20 class decisions)",
 			"zoned literals: XA or XL accepted as long as consistent and the database is not consulted",
